@@ -245,6 +245,8 @@ SEARCH = [
     (r'::fmt$|canonicalize|lemma_', ['rt', 'mut', 'inv']),
     (r'ExtensionList::(set_|remove_|clear_|add_|has_|is_empty|tlang)|set_variants|clear_variants|has_variant', ['mut']),
     (r'::matches$', ['matches']),
+    (r'LanguageIdentifier::(maximize|minimize)', ['likely']),
+    (r'LanguageIdentifier::eq$', ['rt']),
     (r'unic_locale_impl::|locale', ['locale', 'rt']),
 ]
 
